@@ -43,7 +43,7 @@ DECORATOR_FORMS = ("import functools\n\n\n@functools.wraps(print)\n@ functools.l
                    "@(\n    functools.lru_cache\n)\ndef deco_paren(b):\n    return b\n\n\n@ \\\n  functools.cache\nclass DecoClass:\n"
                    "    @ staticmethod\n    async def m():\n        return 1\n\n\nm = a @ b\n")
 # literal parts of f-strings that begin / end with spaces (positions of their Constant nodes on Python >= 3.12)
-FSTRING_FORMS = ("name = 'x'\nmsg = f'  leading {name} middle  {name!r}  trailing  '\nprint(f\"from {name} import \", f'  {name}  ')\n")
+FSTRING_FORMS = ("name = 'x'\nmsg = f'  leading {name} middle  {name!r}  trailing  '\nprint(f\"from {name} import \", f'  {name}  ')\nw = 3\nprint(f'{name:  }', f'{name:{w} }', f'{name: >{w}}  ', f'{w:  d}')\n")
 
 
 def parser_line_starts(src):
